@@ -134,6 +134,7 @@ static void c1_setup(Builder *b, int32_t n0c, int32_t capc) {
 }
 
 #if !defined(C1_sorted) && !defined(C1_compile_peg)
+static int g_kind;
 static void c1_case(int32_t n0c, int32_t capc) {
   Builder B; c1_setup(&B, n0c, capc);
   int depth0 = B.depth; Janet form0; MKJ(form0, JANET_NIL, 7); B.form = form0;
@@ -146,7 +147,7 @@ static void c1_case(int32_t n0c, int32_t capc) {
   { JanetStringHead *h = malloc(sizeof(JanetStringHead) + 6); __CPROVER_assume(h != NULL);
     slen = nd_i32(); __CPROVER_assume(slen >= 0 && slen <= 5); h->length = slen; sdata = h->data;
     buf.count = slen; buf.capacity = 6; buf.data = (uint8_t *) sdata; }
-  int kind = nd_int(); __CPROVER_assume(kind >= C1_KIND_LO && kind <= C1_KIND_HI);
+  int kind = g_kind;                /* a CONSTANT per call site (h_c1): peg_compile1's switch on the pattern type is then followed into one case only */
   if (kind == 0) MKJ(peg, JANET_BOOLEAN, nd_int() ? 1 : 0);
   else if (kind == 1) { peg.type = JANET_NUMBER; peg.as.number = nd_double(); }
   else if (kind == 2) { peg.type = JANET_STRING; peg.as.pointer = (void *) sdata; }
@@ -283,7 +284,12 @@ static void c1_case(int32_t n0c, int32_t capc) {
   (void) cnt0;
 }
 void h_c1(void) {
+#ifdef C1_prim
+  int sel = nd_int();
+  for (int k = C1_KIND_LO; k <= C1_KIND_HI; k++) if (sel == k) { g_kind = k; if (nd_int()) c1_case(0, 0); else c1_case(N0MAX, BCAP); return; }
+#else
   if (nd_int()) c1_case(0, 0); else c1_case(N0MAX, BCAP);
+#endif
 }
 #endif
 
